@@ -1,5 +1,7 @@
 import GmqttVerif.Model.Fed.Protocol
 import GmqttVerif.Proofs.Fed.Protocol
+import GmqttVerif.Model.Fed.LocalSubs
+import GmqttVerif.Proofs.Fed.LocalSubs
 /-
   C16 — Federation event stream is reliable: ordered, at-least-once, applied once.
 
@@ -184,6 +186,97 @@ theorem clean_start_resyncs (s : Sender τ μ) :
   obtain ⟨h1, _, h3, h4, _⟩ := helloS_clean s
   refine ⟨h1, ?_⟩
   simp [EQ.items, h3, h4]
+
+/-! ## 4. `localSubStore`: exact reference counts, events exactly on the 0→1 and 1→0 edges
+
+  `Model/Fed/LocalSubs.lean` mirrors `localSubStore` and the three hooks; stream `localsubs` ties it to the code through the real
+  hook wrappers.  `LS.holders ix t` = number of clients whose topic set contains `t`.  In the protocol model above the sender's local
+  set changes exactly with the emitted Subscribe/Unsubscribe events; the theorems here are what justifies that.
+  (They are about one hook call at a time; two concurrent calls can queue their events in the wrong order in the code:
+  `findings/c16-hook-order-race.md`.) -/
+
+/-- After any history of subscribe / unsubscribe / session-terminated calls, starting from the empty store or from `init` on any
+    broker subscription store, `topics[t]` equals the number of local clients subscribed to `t` — for every topic (0 = absent). -/
+theorem localSubs_refcount (pre : List (String × String)) (ops : List LS.Op) (t : String) :
+    (LS.run (LS.init pre) ops).count t = LS.holders (LS.run (LS.init pre) ops).index t :=
+  (LS.wf_run (LS.wf_init pre) ops).cnt t
+
+/-- One hook call in a reachable store: a Subscribe event is emitted exactly when the number of holders of the topic goes 0→1,
+    an Unsubscribe event exactly when it goes 1→0 (for `OnSessionTerminated`: one per topic the client was the last holder of,
+    none twice), and nothing otherwise. -/
+theorem localSubs_events_exactly_on_edges (pre : List (String × String)) (ops : List LS.Op)
+    (qs : List (String × EQ Body)) (c share filter topic : String) :
+    let l := LS.run (LS.init pre) ops
+    let h : HookSt := { ls := l, queues := qs }
+    -- OnSubscribed
+    ((h.onSubscribed c share filter).2 =
+        if LS.holders l.index (fullName share filter) = 0 then [Body.sub share filter] else []) ∧
+    (LS.holders (h.onSubscribed c share filter).1.ls.index (fullName share filter) =
+        LS.holders l.index (fullName share filter) + LS.ind (fullName share filter ∉ l.clientTopics c)) ∧
+    -- OnUnsubscribed
+    ((h.onUnsubscribed c topic).2 =
+        if topic ∈ l.clientTopics c ∧ LS.holders l.index topic = 1 then [Body.unsub topic] else []) ∧
+    (LS.holders l.index topic =
+        LS.holders (h.onUnsubscribed c topic).1.ls.index topic + LS.ind (topic ∈ l.clientTopics c)) ∧
+    -- OnSessionTerminated
+    ((∀ t, Body.unsub t ∈ (h.onSessionTerminated c).2 ↔ (t ∈ l.clientTopics c ∧ LS.holders l.index t = 1)) ∧
+     (h.onSessionTerminated c).2.Nodup ∧ (∀ b ∈ (h.onSessionTerminated c).2, ∃ t, b = Body.unsub t)) := by
+  intro l h
+  have hwf : LS.WF l := LS.wf_run (LS.wf_init pre) ops
+  have hs := LS.subscribe_spec hwf c (fullName share filter)
+  have hu := LS.unsubscribe_spec hwf c topic
+  have ha := LS.unsubscribeAll_spec hwf c
+  refine ⟨?_, ?_, ?_, ?_, ?_, ?_, ?_⟩
+  · simp only [HookSt.onSubscribed, h]
+    by_cases hz : LS.holders l.index (fullName share filter) = 0
+    · have : (l.subscribe c (fullName share filter)).2 = true := hs.2.2.mpr hz
+      simp [this, hz]
+    · have : (l.subscribe c (fullName share filter)).2 = false := by
+        cases hb : (l.subscribe c (fullName share filter)).2 with
+        | false => rfl
+        | true => exact absurd (hs.2.2.mp hb) hz
+      simp [this, hz]
+  · have := hs.2.1 (fullName share filter)
+    simp only [HookSt.onSubscribed, h]
+    split <;> simpa using this
+  · simp only [HookSt.onUnsubscribed, h]
+    by_cases hz : topic ∈ l.clientTopics c ∧ LS.holders l.index topic = 1
+    · have : (l.unsubscribe c topic).2 = true := hu.2.2.mpr hz
+      simp [this, hz]
+    · have : (l.unsubscribe c topic).2 = false := by
+        cases hb : (l.unsubscribe c topic).2 with
+        | false => rfl
+        | true => exact absurd (hu.2.2.mp hb) hz
+      simp [this, hz]
+  · have := hu.2.1 topic
+    simp only [HookSt.onUnsubscribed, h]
+    split <;> simpa using this
+  · intro t
+    simp only [HookSt.onSessionTerminated, h, List.mem_map]
+    constructor
+    · rintro ⟨x, hx, he⟩
+      cases he
+      exact (ha.2.2.1 t).mp hx
+    · intro hx
+      exact ⟨t, (ha.2.2.1 t).mpr hx, rfl⟩
+  · simp only [HookSt.onSessionTerminated, h]
+    exact GmqttVerif.nodup_map_of_inj_on Body.unsub _ (fun a _ b _ e => by cases e; rfl) ha.2.2.2.1
+  · intro b hb
+    simp only [HookSt.onSessionTerminated, h, List.mem_map] at hb
+    obtain ⟨t, _, rfl⟩ := hb
+    exact ⟨t, rfl⟩
+
+/-- every emitted event is appended to the queue of every peer, once -/
+theorem hook_event_reaches_every_peer (qs : List (String × EQ Body)) (b : Body) :
+    (HookSt.addAll qs b).map (fun p => (p.1, p.2.items.map (·.body))) =
+      qs.map (fun p => (p.1, p.2.items.map (·.body) ++ [b])) := by
+  simp only [HookSt.addAll, List.map_map]
+  apply List.map_congr_left
+  intro p _
+  simp only [Function.comp]
+  congr 1
+  unfold EQ.add
+  cases p.2.dangling <;> simp [EQ.items]
 
 /-! ## non-vacuity -/
 
